@@ -22,7 +22,7 @@ from ..costlib import cost_specs, layer_map
 from ..model import AnalysisError, ClassInfo
 from ..pitlib import pit_layer_classes
 from ..sym import NONE, Term, mentions, show, subterms
-from ..util import (SELF, arg, callee, guards_of, is_call, method_call, paths, returning, short,
+from ..util import (SELF, Inliner, arg, callee, guards_of, is_call, method_call, paths, returning, short,
                     where)
 from .c01 import _binarizer, layer_kind
 from .c05 import is_vars_copy, written_by
@@ -38,6 +38,27 @@ RULE_TEXT = ('obligation = (PIT layer class, hyper-parameter) / (cost function, 
 
 def mask_call(fn_name: str, argterm: Term) -> Term:
     return ('call', ('attr', SELF, fn_name), (argterm,), ())
+
+
+def _subst(t, a, b):
+    if t == a:
+        return b
+    if isinstance(t, tuple):
+        return tuple(_subst(x, a, b) for x in t)
+    return t
+
+
+def _norm(t):
+    """drop value-preserving wrappers (phi of identical alternatives, .float(), keyword vs
+    positional discrete flag)"""
+    if not isinstance(t, tuple):
+        return t
+    if t and t[0] == 'phi':
+        alts = {_norm(x) for x in t[1]}
+        if len(alts) == 1:
+            return alts.pop()
+        return ('phi', tuple(sorted(alts, key=repr)))
+    return tuple(_norm(x) for x in t)
 
 
 def r04a(ctx):
@@ -76,20 +97,31 @@ def r04a(ctx):
         ctx.ob('R04a', f'{ci.name}.get_modified_vars overrides only searched keys', not extra,
                'no other key overridden' if not extra else f'also overrides {extra}', where(gmv),
                nontrivial=False)
-        # eff getters: sum(mask(self.discrete_cost))
+        # eff getters: in both worlds of discrete_cost the effective size is the sum of the mask
+        # function export counts, evaluated with discrete = discrete_cost.  Compared after
+        # inlining properties / helper methods, so that equivalent spellings (reading the
+        # public mask property in the discrete case, theta in the continuous one) are accepted.
+        inl = Inliner(repo, {SELF: ci}, depth=4, skip={'theta', 'features', 'features_mask_'})
         for getter, maskfn in (('out_features_eff', '_features_mask'), ('k_eff', '_time_mask')):
             g = ci.getters.get(getter)
-            if g is None:
+            if g is None or ci.methods.get(maskfn) is None:
                 continue
-            for p in returning(paths(repo, g)):
-                t = p.retval
-                ok = is_call(t, 'torch.sum') and len(t[2]) == 1 and \
-                    t[2][0] == mask_call(maskfn, dc)
-                ctx.ob('R04a', f'{ci.name}.{getter}', ok,
-                       f'sum of {maskfn}(self.discrete_cost)' if ok else
-                       f'{getter} = {short(t)}: expected torch.sum(self.{maskfn}('
-                       f'self.discrete_cost)), the same mask export counts with discrete=True',
-                       where(g))
+            for D in (True, False):
+                got = set()
+                for p in returning(paths(repo, g)):
+                    if any(a == dc and v is not D for a, v in p.assumptions):
+                        continue
+                    got.add(_norm(inl.expand(_subst(p.retval, dc, ('const', D)))))
+                ref = _norm(inl.expand(('call', ('global', 'torch.sum'),
+                                        (('call', ('attr', SELF, maskfn), (('const', D),), ()),),
+                                        ())))
+                ok = got == {ref}
+                ctx.ob('R04a', f'{ci.name}.{getter} [discrete_cost={D}]', ok,
+                       f'sum of {maskfn}({D})' if ok else
+                       f'with discrete_cost={D}, {getter} evaluates to '
+                       f'{[short(x, 120) for x in got]} but the mask export counts gives '
+                       f'{short(ref, 120)}: the cost is charged for a size the exported layer '
+                       f'does not have', where(g))
         # continuous branch of the mask functions reads the same theta
         fm = ci.methods.get('_features_mask')
         if fm is not None:
